@@ -57,6 +57,10 @@ pub enum Op {
     /// the protocol's normal step: validate(next, valid signatures) then revoke(next)
     /// (activate for number 0); two real requests
     Advance { c: CSel, phase1: bool },
+    /// injected storage fault: the next write of the channel entry fails (nothing is stored).  The
+    /// request that hits it is answered (with an error, unless the signer swallows it) and the
+    /// signer process then dies and is restarted from the store, as vlsd does on a persist failure
+    StorageFault,
 }
 
 pub fn d_strat() -> impl Strategy<Value = i8> {
@@ -106,6 +110,7 @@ pub fn op_strat(valid_weight: u32, sign_weight: u32) -> impl Strategy<Value = Op
         3 => (0u8..4).prop_map(|n| Op::StubProbe { n }),
         6 => Just(Op::Restart),
         27 => (csel_strat(), any::<bool>()).prop_map(|(c, phase1)| Op::Advance { c, phase1 }),
+        5 => Just(Op::StorageFault),
     ]
 }
 
@@ -417,7 +422,22 @@ impl StepOut {
 }
 
 impl Machine {
+    /// One request (or one sub-request of a macro op), followed by the crash-and-restart that a
+    /// fired storage fault entails.
     pub fn step(&mut self, i: usize, op: &Op) -> StepOut {
+        let before = self.w.fault.fired.load(std::sync::atomic::Ordering::SeqCst);
+        let mut so = self.step_req(i, op);
+        if self.w.fault.fired.load(std::sync::atomic::Ordering::SeqCst) != before && !self.dead {
+            so.notes.push("storage-fault-fired:crash-restart".to_string());
+            let r = self.w.restart();
+            if !r.is_ok() {
+                self.dead = true;
+            }
+        }
+        so
+    }
+
+    fn step_req(&mut self, i: usize, op: &Op) -> StepOut {
         let mut so = self.step_inner(i, op);
         if so.req.is_empty() {
             so.req = so.kind;
@@ -620,6 +640,11 @@ impl Machine {
                     self.dead = true;
                 }
             }
+            Op::StorageFault => {
+                so.kind = "storage-fault";
+                self.w.fault.arm();
+                so.tag = "ok";
+            }
         }
         so
     }
@@ -648,7 +673,7 @@ impl Prop for C01 {
         "histories of <=40 (quick) / <=120 (thorough) requests on one ready channel (static-remotekey or anchors, inbound/outbound) plus a \
          stub: validate holder commitment next+d (phase-1 tx+witscripts or phase-2 values; content same/add/remove/fresh; counterparty \
          signatures valid or one of 7 invalid kinds), revoke(next+d), activate, get point/secret/secret-or-none/check-future at next+d, the \
-         three holder signing requests, stub probes and restarts (signer rebuilt from a copy of the store). Each history runs at one of four \
+         three holder signing requests, stub probes, restarts (signer rebuilt from a copy of the store) and injected storage faults (API level: the next write of the channel entry fails, the request is answered, and the signer then restarts from the store). Each history runs at one of four \
          levels with equal weight: API (Node::with_channel) or wire messages to the vls-protocol-signer handlers with protocol version 4, 5 \
          or 6 negotiated by HsmdInit/HsmdInit2 and asserted on the reply (v<5: ValidateCommitmentTx(2) validates and revokes in one request \
          and RevokeCommitmentTx is refused; v>=5: separate RevokeCommitmentTx; v<6: GetPerCommitmentPoint(n) also returns secret n-2; \
